@@ -377,6 +377,16 @@ func (c *glCtx) binary(x *ast.BinaryExpr, rt types.Type) string {
 		if b, ok := lt.Underlying().(*types.Basic); ok && b.Info()&types.IsUntyped != 0 {
 			want = rtp
 		}
+		// `reader == nil` for an io.ReaderAt: a reader is a function value in the model and is never nil (a nil reader is
+		// outside the theorems' quantifier: they are stated over in-memory readers)
+		if idn, ok := ast.Unparen(x.Y).(*ast.Ident); ok && idn.Name == "nil" && (x.Op == token.EQL || x.Op == token.NEQ) {
+			if ltn, ok := c.g.leanTypeOK(lt); ok && ltn == "Go.ReaderAt" {
+				if x.Op == token.EQL {
+					return "false"
+				}
+				return "true"
+			}
+		}
 		if (isErrorType(lt) || isErrorType(rtp)) && !c.errData {
 			c.fail(x, "comparison of error values")
 		}
@@ -902,6 +912,38 @@ func (c *glCtx) stdlib(qn string, call *ast.CallExpr, n int) ([]string, bool) {
 			return nil, false
 		}
 		return []string{fmt.Sprintf("(Go.Error.is %s %s)", c.expr(call.Args[0]), c.expr(call.Args[1]))}, true
+	case "github.com/gagliardetto/binary.Decoder.Read":
+		// (*Decoder).Read(buf): exactly len(buf) bytes or an error and no progress (gagliardetto/binary v0.8.0 decoder.go)
+		se := ast.Unparen(call.Fun).(*ast.SelectorExpr)
+		rd := c.expr(se.X)
+		buf := c.expr(call.Args[0])
+		t := c.fresh("t")
+		if c.errData {
+			c.emit("let %s ← Go.catchErr (Go.readFull %s (Go.len %s)) (%s, %s)", t, rd, buf, rd, buf)
+			c.store(se.X, t+".1.1")
+			c.store(call.Args[0], t+".1.2")
+			return []string{fmt.Sprintf("(Go.len %s)", buf), t + ".2"}, true
+		}
+		c.emit("let %s ← Go.readFull %s (Go.len %s)", t, rd, buf)
+		c.store(se.X, t+".1")
+		c.store(call.Args[0], t+".2")
+		return []string{fmt.Sprintf("(Go.len %s)", buf)}, true
+	case "github.com/gagliardetto/binary.Decoder.ReadUint64":
+		// (*Decoder).ReadUint64(bin.LE): eight bytes little-endian or an error (only called with binary.LittleEndian here)
+		if se2, ok := ast.Unparen(call.Args[0]).(*ast.SelectorExpr); !ok || se2.Sel.Name != "LE" {
+			c.fail(call, "ReadUint64 with a byte order other than bin.LE")
+		}
+		se := ast.Unparen(call.Fun).(*ast.SelectorExpr)
+		rd := c.expr(se.X)
+		t := c.fresh("t")
+		if c.errData {
+			c.emit("let %s ← Go.catchErr (Go.readU64LE %s) (%s, (0 : UInt64))", t, rd, rd)
+			c.store(se.X, t+".1.1")
+			return []string{t + ".1.2", t + ".2"}, true
+		}
+		c.emit("let %s ← Go.readU64LE %s", t, rd)
+		c.store(se.X, t+".1")
+		return []string{t + ".2"}, true
 	case "io.NewSectionReader":
 		return []string{fmt.Sprintf("(Go.sectionReader %s %s %s)", c.expr(call.Args[0]), c.exprAs(call.Args[1], types.Typ[types.Int64]), c.exprAs(call.Args[2], types.Typ[types.Int64]))}, true
 	case "bytes.NewReader":
